@@ -462,6 +462,28 @@ fn c02_constructors(rep: &mut Report, judge: &Judge) {
         out
     });
     rep.add(sec);
+    // SerialNumber: the conversions and accessors agree, and a number given as u64 is the number the certificate carries
+    let sec = Section::new("constructors/SerialNumber conversions", "From<u64>, From<Vec<u8>>, from_slice, to_bytes, AsRef, len, Display over boundary numbers; the certificate carries the same number");
+    let nums: Vec<u64> = vec![0, 1, 0x7f, 0x80, 0xff, 0x100, 0x7fff, 0x8000, 0xffff, 0x1_0000, 0x7fff_ffff, 0x8000_0000, 0xffff_ffff, 0x1_0000_0000, 0x7fff_ffff_ffff_ffff, 0x8000_0000_0000_0000, u64::MAX];
+    run::sweep_cases(&sec, &nums, &|n| format!("{:#x}", n), &|n| {
+        let mut out = Outcome::default();
+        let be = n.to_be_bytes().to_vec();
+        let a = rcgen::SerialNumber::from(*n);
+        let b = rcgen::SerialNumber::from(be.clone());
+        let c = rcgen::SerialNumber::from_slice(&be);
+        let hex = be.iter().map(|x| format!("{:02x}", x)).collect::<Vec<_>>().join(":");
+        if a != b || b != c || a.to_bytes() != be || a.as_ref() != be.as_slice() || a.len() != be.len() || a.to_string() != hex {
+            out.findings.push(Finding::new("CNT-VALUE(accessor)", "SerialNumber", format!("conversions / accessors disagree for {:#x}", n)));
+        }
+        let mut st = CertState::default();
+        st.serial = Some(be);
+        let o2 = judge.judge(&st, &ctx);
+        out.findings.extend(o2.findings);
+        out.transitions = 8 + o2.transitions;
+        out.digest = o2.digest;
+        out
+    });
+    rep.add(sec);
     // CustomExtension: constructors and accessors
     let sec = Section::new("constructors/CustomExtension accessors", "from_oid_content / set_criticality / new_acme_identifier: oid_components(), criticality(), content() return what went in; the ACME identifier is critical, has the registered OID and an OCTET STRING of the digest as content");
     let cases: Vec<(Vec<u64>, Vec<u8>, bool)> = vec![(vec![1, 2, 3, 4], vec![5, 0], false), (vec![2, 999, 1], vec![], true), (vec![1, 3, 6, 1, 4, 1, 1, u64::MAX], vec![0xff; 200], true), (vec![0, 0], vec![1], false)];
